@@ -323,7 +323,11 @@ func (m *Model) Exec(si int, args []string) Reply {
 	if early != nil {
 		return *early
 	}
-	return ci.fn(m, s, args)
+	r := ci.fn(m, s, args)
+	if r.K == KUMap {
+		r.Proto = s.Proto
+	}
+	return r
 }
 
 // ---- argument helpers ----------------------------------------------------------------------
